@@ -33,7 +33,7 @@ META = {
                   "single front to cut, with the k = 0, k >= n and front-boundary cases; prune's loop terminates. The models are tied to /repo on every run by exact "
                   "correspondence (ranks, crowding distances as exact rationals, identities returned for every k in 0..n+2; Coq vm_compute) and by brute-force "
                   "depth / cut-law oracles on the real functions (with a watchdog for non-terminating calls).",
-    "level_note": "Trusted: Coq kernel + VM; the harness (literal printer, shard runner, the float-exactness monitor XF); the hand-written models are tied to the code "
+    "level_note": "Tie/T04.v also states the truncation clause about the nondominated_truncate GENERATED from the source text (tie_c04_generated_truncate_*). Trusted: Coq kernel + VM; the harness (literal printer, shard runner, the float-exactness monitor XF); the hand-written models are tied to the code "
                   "only on the sampled populations (0-14 members over small dyadic lattices). Crowding theorems are about exact rational arithmetic: IEEE rounding "
                   "in the crowding sums is not modelled (the correspondence uses inputs on which every float operation of the implementation is exact, checked at "
                   "run time with fractions.Fraction on every +,-,*,/ the real code performs; inexact cases are discarded from the correspondence, counted, and still "
